@@ -97,6 +97,58 @@ def _guard_evidence(fi, node, recv, assigns):
     return "none"
 
 
+CHILD_FIELDS = {"left", "right", "operand", "base", "exponent", "expr", "expression", "lhs", "rhs", "vector", "matrix", "condition"}
+NODE_NAMES = {"expr", "expression", "node", "child", "term", "operand", "left", "right"}
+
+
+def _node_evidence(prog, fi, cls, node, recv, assigns):
+    """True: the receiver is positively an expression-tree node (a child field of one, annotated as one, kind-tested
+    somewhere in the function, or duck-tested for .value); False: it is the object / class of a class outside the
+    expression hierarchy (its own attribute); None: nothing says."""
+    root = recv.split(".")[0].split("[")[0].split("(")[0]
+    first = fi.node.args.args[0].arg if isinstance(fi.node, (ast.FunctionDef, ast.AsyncFunctionDef)) and fi.node.args.args else None
+    in_hierarchy = cls is not None and (prog.is_subclass(cls.name, "Expression") or cls.name == "Expression")
+    if fi.cls is not None and root == first and root in ("self", "cls") and recv == root and not in_hierarchy:
+        return False
+    parts = recv.replace("]", "").replace("[", ".").split(".")
+    if len(parts) > 1 and parts[-1] in CHILD_FIELDS:
+        return True
+    if in_hierarchy and root == "self":
+        return True
+    if recv.startswith("cast("):
+        return True
+    for a_ in getattr(fi.node, "args", None).args + getattr(fi.node, "args", None).kwonlyargs if hasattr(fi.node, "args") else []:
+        if a_.arg == root and a_.annotation is not None:
+            ann = ast.unparse(a_.annotation)
+            if any(k in ann for k in ("Expression", "Constant", "Parameter", "BinaryOp", "UnaryOp", "Variable")):
+                return True
+    names = {recv}
+    if recv in assigns:
+        for v in assigns[recv]:
+            if isinstance(v, ast.AST):
+                sv = src(v)
+                names.add(sv)
+                if isinstance(v, ast.Attribute) and v.attr in CHILD_FIELDS:
+                    return True
+    for c in ast.walk(fi.node):
+        if isinstance(c, ast.Call) and dotted(c.func) in ("isinstance", "hasattr") and len(c.args) == 2 and src(c.args[0]) in names:
+            if dotted(c.func) == "hasattr":
+                if isinstance(c.args[1], ast.Constant) and c.args[1].value in ("value", "_value"):
+                    return True
+                continue
+            ks = c.args[1].elts if isinstance(c.args[1], ast.Tuple) else [c.args[1]]
+            for k in ks:
+                kn = src(k).split(".")[-1]
+                try:
+                    if prog.is_subclass(kn, "Expression") or kn == "Expression":
+                        return True
+                except Exception:
+                    pass
+    if root in NODE_NAMES and recv == root:
+        return True
+    return None
+
+
 def check(prog, rep):
     # ------------------------------------------------------------------ F1
     ok = not prog.is_subclass("Parameter", "Constant") and not prog.is_subclass("Constant", "Parameter")
@@ -223,7 +275,14 @@ def check(prog, rep):
                     else:
                         rep.undecided(f"{construct}: {recv} is a parameter of {fi.name}; whether callers only pass Constant nodes is not decided here")
                 continue
+            node_ev = _node_evidence(prog, fi, cls, n, recv, assigns)
+            if node_ev is False:
+                rep.ob("R12.1", construct, True, f"{recv} is the object / class of {cls.name if cls else '?'}, which is not an expression node: its own attribute", loc=loc, detail="own-state", trivial=True)
+                continue
             verdict = _guard_evidence(fi, n, recv, assigns)
+            if node_ev is None and verdict == "none":
+                rep.undecided(f"{construct}: nothing in {fi.name} says what kind of object {recv} is (no kind test, not a child field of an expression node, no annotation): whether it can be a Parameter is not decided")
+                continue
             if verdict == "unknown":
                 rep.undecided(f"{construct}: {recv} is tested with isinstance(.., Constant) / by a predicate in this function, but the test does not dominate the read in a way this rule can follow (loop-else, flag, helper): not decided")
                 continue
